@@ -254,6 +254,20 @@ def rewrite_call(raw, raws, bi):
                                                            "val": 1 if name == "is_none_or" else 0}})], cx.goto(target))
             switch_enum(O, V, arms(S, N), oty)
             return True
+        if name == "filter" and is_opt and len(args) == 2:
+            fc = clos(1, 1)
+            if fc is None:
+                return False
+            P = cx.local("")
+            B = cx.local("bool")
+            KS = cx.block([cx.assign(D, {"k": "use", "op": mv(O)})], cx.goto(target))
+            KN = cx.block([cx.assign(D, agg("Option", "None", []))], cx.goto(target))
+            K = cx.block([], dict(meta, k="switch", op=mv(B, "bool"), targets=[[0, KN]], otherwise=KS, op_ty="bool"))
+            S = cx.splice(fc[0], fc[1], [mv(P)], {"local": B, "proj": [], "ty": "bool"}, K,
+                          pre=[cx.assign({"local": P, "proj": [], "ty": ""}, {"k": "ref", "mut": False, "place": variant_place(O, "Option", "Some", 1)})])
+            N = cx.block([cx.assign(D, agg("Option", "None", []))], cx.goto(target))
+            switch_enum(O, V, (N, S), oty)
+            return True
         if name == "inspect" and len(args) == 2:
             fc = clos(1, 1)
             if fc is None:
@@ -325,7 +339,10 @@ def rewrite_call(raw, raws, bi):
         callee = {"decl": "std::iter::Iterator::next", "path": "<" + ity + " as std::iter::Iterator>::next", "resolved": False, "krate": "core",
                   "local": False, "gargs": "[" + ity + "]", "kind": "AssocFn", "name": "next", "unsafe": False, "self_arg_ty": ity,
                   "synthetic": True}
-        H = cx.block([cx.assign({"local": ref, "proj": [], "ty": "&mut " + ity}, {"k": "ref", "mut": True, "place": {"local": it, "proj": [], "ty": ity}})],
+        # try_for_each / try_fold take `&mut self`: the operand is already a reference to the iterator -> reborrow it
+        byref = ity.startswith("&mut ")
+        refrv = {"k": "ref", "mut": True, "place": {"local": it, "proj": ([{"k": "deref"}] if byref else []), "ty": ity}}
+        H = cx.block([cx.assign({"local": ref, "proj": [], "ty": "&mut " + ity}, refrv)],
                      dict(meta, k="call", callee=callee, args=[mv(ref)], dest={"local": n, "proj": [], "ty": ""}, target=H2, unwind=None,
                           fn_exp=True, desugared="closure"))
         blk["term"] = cx.goto(H)
